@@ -104,6 +104,8 @@ def monitors(ctx, n, flaky, res, exc, replay, where):
 
 
 def run_retry(ctx):
+    import translate_retry
+    translate_retry.check(ctx)       # retry.py's create_retry translated to Gallina and linked to Engine/Retry.v by a theorem
     uberjob = core.use_repo()
     from uberjob._util.retry import create_retry, identity
     from uberjob._run import _coerce_retry
